@@ -45,6 +45,8 @@ def grid():
 
 
 REPORT_POOL = ["1.4", "1.5.0", "2.0.0", "2.1.1", "2.2.0", "2.3.2", "0.9", "", "abc", "2.x", "2.2-beta", "2", "9" * 5000]
+MODIFIER_REPORTS = ["2.2.0-beta", "2.2.0-rc.1", "2.2.0+build", "2.1.0-beta", "2.0.0-beta", "2.0b1", "2.3.2-rc.2", "1.5.0-beta",
+                    "2.2.0-alpha.1", "2.4.0-alpha", "2.1.1+exp.sha.5114f85", "2.0.0rc1", "2.2.1.dev3"]
 
 
 def cases(ctx):
@@ -60,6 +62,11 @@ def cases(ctx):
                 steps = PRE + [["rx", form.format(text)]] + [["rx", p] for p in PROBES]
                 yield {"version": initial, "steps": steps}
     ctx.exhaustive["release-grid-cases"] = count
+    for text in MODIFIER_REPORTS:
+        for form in ("0;255;3;0;2;{}\n", "0;255;0;0;18;{}\n"):
+            for initial in (None, "1.4", "2.2", "2.0"):
+                if ctx.mine():
+                    yield {"version": initial, "steps": PRE + [["rx", form.format(text)]] + [["rx", p] for p in PROBES]}
     # orders of reports mixed with traffic
     count = 0
     traffic = ["1;0;0;0;6;t\n", "1;0;1;0;0;5\n", "1;255;3;0;22;7\n", "9;0;1;0;0;1\n"]
